@@ -3284,7 +3284,7 @@ impl<'a> Parser<'a> {
                     let type_saved_current = self.current.clone();
 
                     self.advance(); // consume ':'
-                    if let Ok(_type_ann) = self.parse_type_annotation()
+                    if let Ok(_type_ann) = self.parse_return_type()
                         && self.check(&TokenKind::Arrow)
                     {
                         // Restore and let parse_arrow_function_from_params handle it
@@ -3313,7 +3313,7 @@ impl<'a> Parser<'a> {
                 let type_saved_current = self.current.clone();
 
                 self.advance(); // consume ':'
-                if let Ok(_type_ann) = self.parse_type_annotation()
+                if let Ok(_type_ann) = self.parse_return_type()
                     && self.check(&TokenKind::Arrow)
                 {
                     // Restore and let parse_arrow_function_from_params handle it
